@@ -177,6 +177,9 @@ func specsC15(tier string) []seqmc.Spec {
 		}
 		cfg.ops = append(cfg.ops,
 			op{kind: "multi", target: "t", ts: 2, ups: []updSpec{{ps("x"), 1}, {ps("y/z"), 2}}, dels: []pathSpec{ps("k")}},
+			// partially refused notifications: one member collides with a leaf, the other is accepted
+			op{kind: "multi", target: "t", ts: 3, ups: []updSpec{{ps("x"), 1}, {ps("x/w"), 1}}},
+			op{kind: "multi", target: "t", ts: 4, ups: []updSpec{{ps("y"), 1}, {ps("x"), 2}}},
 			op{kind: "empty", target: "t", ts: 1},
 			del("t", "x", 2), del("t", "x", 4), del("t", "*", 4), del("t", "y", 4), del("t", "*", 1<<40),
 			life("connect", "t"), life("connecterr", "t"), life("sync", "t"), life("reset", "t"),
